@@ -140,8 +140,12 @@ def run(ctx):
             body = [s for s in sf.body]
             loops = [s for s in body if isinstance(s, ast.While)]
             rets = [s for s in body if isinstance(s, ast.Return)]
-            if len(loops) != 1 or len(rets) != 1 or not (isinstance(loops[0].test, ast.Constant) and loops[0].test.value):
+            if len(loops) != 1 or len(rets) != 1:
                 o.undecided("series helper is not `init; while True: ...; return acc`", sf)
+                continue
+            if not (isinstance(loops[0].test, ast.Constant) and loops[0].test.value):
+                o.violated(sf, loops[0], f"the series loop has the additional exit `while {txt(loops[0].test)}`: it can stop - or never start - while terms above the tolerance remain "
+                                         "(the only exit must be |term| < tol, tested after the term was added)")
                 continue
             lp = loops[0]
             init = {}
